@@ -15,7 +15,7 @@ LEVEL = dict(
 )
 
 
-def run(ctx):
+def run(ctx, dangling_clause=True):
     F = ctx.facts("default")
     R = "R-ORDER"
     b = F.fn("Document::renumber_objects_with")
@@ -78,10 +78,49 @@ def run(ctx):
             ctx.ob(R, "rewrite-guarded-lookup|%s" % F.canon_of(a).rsplit("::", 1)[-1], ok, "replace[id] is read only under replace.contains_key(id)", a.where(),
                    what="the reference rewrite indexes the replace map without the contains_key guard (dangling references would panic or be rewritten)")
     ctx.floor(R, "reference-rewriting closures", rew, 2)
-    # bookmarks in both loops
-    rb = lib.local_calls(F, b, "Document::renumber_bookmarks")
-    ctx.ob(R, "bookmarks-renamed", len(rb) == 2 and all(any(c.bb in bl for bl in loops.values()) for c in rb), "renumber_bookmarks is called inside both moving loops", b.where(),
-           what="bookmark targets are no longer renamed for every moved object")
+    # "a reference that resolved to nothing still resolves to nothing": a reference whose id is not a key of the rename map
+    # (a dangling one) is left as it is — but the numbers handed out afresh may well include its number.  Some handling has to
+    # stand on the not-in-the-map edge (or the fresh numbers have to avoid the dangling ones); nothing there = finding.
+    npass = 0
+    for a in (sorted(acts, key=lambda x: x.lo) if dangling_clause else []):
+        ck = [c for c in a.calls if re.search(r"BTreeMap::<.*>::contains_key$", c.fn or "")]
+        if len(ck) != 1:
+            continue
+        npass += 1
+        sw = [bi for bi in range(a.n) if a.term(bi)["k"] == "switch" and lib.switch_on(a, bi, ck[0].dest["l"])]
+        if len(sw) != 1:
+            continue
+        t = a.term(sw[0])
+        tr, fa = t["else"], t["tg"][0][1]
+        only_false = a.reach_set(fa) | {fa}
+        only_false -= (a.reach_set(tr) | {tr})
+        handled = any(a.term(x)["k"] == "call" or any("lhs" in st_ and st_["lhs"]["p"] for st_ in a.blocks[x]["st"]) for x in only_false)
+        ctx.ob("R-GUARD", "dangling-references-kept-apart|pass%d" % npass, handled, "a reference that is not in the rename map is dealt with explicitly", a.where(),
+               what="renumber_objects_with leaves a reference whose target does not exist unchanged while handing out fresh numbers from the start value: when its number is among them the dangling reference resolves to an object afterwards (e.g. objects 1 and 5, a reference to 2: 5 becomes 2)")
+    # bookmark targets are renamed like references: once per pass, by the completed rename map of that pass (a lookup per
+    # bookmark), not pair by pair while the map is being filled — renames applied one after the other chain (a -> b, then b -> c)
+    rb = [c for c in b.calls if c.local and re.search(r"Document::(renumber_bookmarks(_with)?|update_bookmark_pages)$", c.cname)]
+    okb, whyb = len(rb) == 2, "%d call(s) that rename bookmark targets" % len(rb)
+    rep_ins_b = [c for c in b.calls if re.search(r"BTreeMap::<.*>::insert$", c.fn or "") and "replace" in b.oname(c.args[0], 4)]
+    for c in rb:
+        mo = None
+        for a in c.args[1:]:
+            o = lib.origin_local(F, b, a)
+            if o is not None and o[0] is b and not o[2] and b.lty(o[1]).startswith("std::collections::BTreeMap"):
+                mo = o[1]
+        if mo is None:
+            okb, whyb = False, "the call at line %d renames one (old, new) pair at a time instead of looking every bookmark up in the rename map" % c.ln
+            continue
+        ins_m = [i for i in rep_ins_b if (lib.origin_local(F, b, i.args[0]) or (None, None, 1))[1] == mo]
+        clears = {k.bb for k in b.calls if k.args and re.search(r"BTreeMap::<.*>::clear$", k.fn or "") and (lib.origin_local(F, b, k.args[0]) or (0, None, 1))[1] == mo}
+        before = [i for i in ins_m if b.can_reach(i.bb, c.bb, avoid=clears)]
+        inside = [i for i in ins_m if any(i.bb in bl and c.bb in bl for bl in loops.values())]
+        if not before:
+            okb, whyb = False, "the rename map handed over at line %d has not been filled (or was cleared) at that point" % c.ln
+        elif inside:
+            okb, whyb = False, "bookmarks are renamed at line %d inside the loop that still fills the rename map" % c.ln
+    ctx.ob(R, "bookmarks-renamed", okb, "both passes rename the bookmark targets by a lookup in their completed rename map", b.where(),
+           what="bookmark targets are not renamed like the references (%s)" % whyb)
     # the rename map is per pass: between one traversal that applies it and the next insertion into it, it is emptied
     # (an entry left over from the page-ordering pass would be applied again by the compaction pass)
     maps = {}
@@ -114,10 +153,14 @@ def run(ctx):
         okb = True
         for bi in range(ub.n):
             t = ub.term(bi)
-            if t["k"] != "switch" or t["dty"] != "bool":
+            if t["k"] != "switch":
                 continue
             d = ub.def_rv(t["d"])
-            if d and d[2] == "call" and re.search(r"PartialEq(<.*>)?>?::(eq|ne)$|PartialEq for .*::(eq|ne)$", d[3]["f"].get("fn") or ""):
+            if d and d[2] == "rv" and d[3]["k"] == "discr":
+                # `if let Some(new) = replace.get(&page)`: the test is the discriminant of the lookup's result
+                q = d[3]["p"]
+                d = ub.single_def(q["l"]) if not [e for e in q["p"] if e != "*"] else None
+            if d and d[2] == "call" and re.search(r"PartialEq(<.*>)?>?::(eq|ne)$|PartialEq for .*::(eq|ne)$|BTreeMap::<.*>::(get|contains_key)$", d[3]["f"].get("fn") or ""):
                 # within one turn of the loop: do not go round through the loop header
                 heads = [h for h, bl in ub.loops().items() if bi in bl and rec[0].bb in bl]
 
@@ -134,6 +177,8 @@ def run(ctx):
                     okb = False
     ctx.ob(R, "bookmark-children-always-visited", okb, "the recursion into the children does not depend on whether the parent bookmark matched", ub.where(),
            what="update_bookmark_pages visits the children of a bookmark only on one outcome of the `page == old` test: a nested bookmark that targets the same page as an ancestor keeps the old id")
+    import corerules
+    corerules.recursion_arg_order(ctx, F, ["Document::update_bookmark_pages"])
     # max_id
     st = lib.stores_to_field(b, "max_id")
     t = [b.rvname(s[2]["rv"], 4) for s in st if s[1] != "T"]
